@@ -219,8 +219,8 @@ pub fn run_c02(tier: Tier, filter: Filter, depth_override: Option<usize>) -> i32
     let depth = depth_override.unwrap_or(tier_depth(tier));
     let corpus = corpus::build(depth, false);
     let cap = match tier {
-        Tier::Quick => 600,
-        Tier::Thorough => 20000,
+        Tier::Quick => 4000,
+        Tier::Thorough => 50000,
     };
     let st = corpus
         .par_iter()
